@@ -23,7 +23,7 @@ LEVEL_TEXT = ("Coq theorems over the regenerated per-sample updates of Madgwick,
               "dropout is explored by the search oracle, not proved.")
 LEVEL_NOTE = "needs fixes C13-fkf-dropout, C13-complementary-dropout, C13-ukf-acc-guard (and C03's ukf-sum) to pass without known findings"
 TECHNIQUE = "pysym regeneration + Coq (field/nra over generated terms, induction over histories) + vm_compute correspondence + numeric search"
-RULE = ("histories: smooth synthetic rotations (3 seeds x amplitudes) of 80-160 samples with consistent acc/mag/gyr; dropouts: every "
+RULE = ("histories: smooth synthetic rotations (3 seeds x amplitudes 0.3/0.8/1.5 rad) of 160-240 samples (and 2..7 samples) with consistent acc/mag/gyr; dropouts: every "
         "combination of zeroed acc / mag / gyr rows, at positions 1, 2, mid, N-2, N-1 and random, lengths 1..25, single, repeated and "
         "overlapping; every recursive filter and architecture; a case is non-trivial when at least one row is zeroed; distinct = "
         "distinct (filter, sensors, position, length, history)")
@@ -128,5 +128,328 @@ def targets():
     ]
 
 
-STAGES = []
-ORACLES = {}
+
+STAGES = [['C13_lib.v'], ['C13_mm.v', 'C13_rest.v', 'C13_drv.v'], ['C13.v']]
+COQ_TIMEOUT = 240
+
+
+# ------------------------------------------------------------------------------------------
+# implementation side
+# ------------------------------------------------------------------------------------------
+def _F():
+    import ahrs
+    return ahrs.filters
+
+
+def _v(c, names):
+    return np.array([c[k] for k in names], dtype=float)
+
+
+def _impl_table():
+    F = _F()
+    z = lambda: np.zeros(3)
+    q = lambda c: _v(c, Q)
+    g = lambda c: _v(c, G)
+    a = lambda c: _v(c, AC)
+    m = lambda c: _v(c, M)
+    mah = lambda c: F.Mahony(b0=_v(c, BB))
+    mo = lambda f, r: [r, f.b]
+    rol = lambda: F.ROLEQ(magnetic_ref=np.array(MR), weights=np.array([1.0, 1.0]))
+    ekf = lambda: F.EKF(magnetic_ref=np.array(MR))
+    eo = lambda f, r: [r, f.P]
+    import ahrs
+
+    def comp(c, mag):
+        o = F.Complementary(gyr=np.array([_v(c, H), _v(c, G)]), acc=np.array([_v(c, AC), z()]),
+                            mag=np.array([_v(c, N0), _v(c, M)]) if mag else None, w0=_v(c, W0))
+        return [o.W[1], o.Q[1]]
+
+    def fkf(c, acc1, mag1):
+        o = F.FKF(gyr=np.array([_v(c, H), _v(c, G)]), acc=np.array([_v(c, AC), acc1]), mag=np.array([_v(c, N0), mag1]))
+        return [o.Q[1], o.Pk]
+    return {
+        'mad_imu_a0': lambda c: F.Madgwick().updateIMU(q(c), g(c), z(), dt=c['dt']),
+        'mad_marg_a0': lambda c: F.Madgwick().updateMARG(q(c), g(c), z(), m(c), dt=c['dt']),
+        'mad_marg_am0': lambda c: F.Madgwick().updateMARG(q(c), g(c), z(), z(), dt=c['dt']),
+        'mad_marg_m0': lambda c: (lambda f: [f.updateMARG(q(c), g(c), a(c), z(), dt=c['dt']),
+                                             f.updateIMU(ahrs.Quaternion(q(c)), g(c), a(c))])(F.Madgwick()),
+        'mah_imu_a0': lambda c: (lambda f: mo(f, f.updateIMU(q(c), g(c), z(), dt=c['dt'])))(mah(c)),
+        'mah_marg_a0': lambda c: (lambda f: mo(f, f.updateMARG(q(c), g(c), z(), m(c), dt=c['dt'])))(mah(c)),
+        'mah_marg_am0': lambda c: (lambda f: mo(f, f.updateMARG(q(c), g(c), z(), z(), dt=c['dt'])))(mah(c)),
+        'mah_marg_m0': lambda c: [(lambda f: mo(f, f.updateMARG(q(c), g(c), a(c), z(), dt=c['dt'])))(mah(c)),
+                                  (lambda f: mo(f, f.updateIMU(ahrs.Quaternion(q(c)), g(c), a(c))))(mah(c))],
+        'aqua_imu_a0': lambda c: F.AQUA().updateIMU(q(c), g(c), z(), dt=c['dt']),
+        'aqua_marg_a0': lambda c: F.AQUA().updateMARG(q(c), g(c), z(), m(c), dt=c['dt']),
+        'aqua_marg_am0': lambda c: F.AQUA().updateMARG(q(c), g(c), z(), z(), dt=c['dt']),
+        'aqua_marg_m0': lambda c: (lambda f: [f.updateMARG(q(c), g(c), a(c), z(), dt=c['dt']),
+                                              f.updateIMU(q(c), g(c), a(c), dt=c['dt'])])(F.AQUA()),
+        'fou_a0': lambda c: F.Fourati().update(q(c), g(c), z(), m(c), dt=c['dt']),
+        'fou_m0': lambda c: F.Fourati().update(q(c), g(c), a(c), z(), dt=c['dt']),
+        'rol_a0': lambda c: rol().update(q(c), g(c), z(), m(c), dt=c['dt']),
+        'rol_m0': lambda c: rol().update(q(c), g(c), a(c), z(), dt=c['dt']),
+        'rol_am0': lambda c: rol().update(q(c), g(c), z(), z(), dt=c['dt']),
+        'ekf_a0': lambda c: (lambda f: eo(f, f.update(q(c), g(c), z(), dt=c['dt'])))(ekf()),
+        'ekf_a0_mag': lambda c: (lambda f: eo(f, f.update(q(c), g(c), z(), m(c), dt=c['dt'])))(ekf()),
+        'ekf_m0': lambda c: ekf().update(q(c), g(c), a(c), z(), dt=c['dt']),
+        'ukf_a0': lambda c: (lambda f: eo(f, f.update(q(c), g(c), z(), dt=c['dt'])))(F.UKF()),
+        'fkf_meas_a0': lambda c: F.FKF().measurement_quaternion_acc_mag(q(c), z(), m(c)),
+        'fkf_meas_m0': lambda c: F.FKF().measurement_quaternion_acc_mag(q(c), a(c), z()),
+        'fkf_a0': lambda c: fkf(c, z(), _v(c, M)),
+        'fkf_m0': lambda c: fkf(c, _v(c, BB), z()),
+        'comp_imu_a0': lambda c: comp(c, False),
+        'comp_marg_a0': lambda c: comp(c, True),
+    }
+
+
+def _case(rng, names, i):
+    c = {}
+    qq = cm.quats(rng, i + 1)[i][1] if i < 40 else cm.rand_unit_quat(rng)
+    c.update(cm.d(Q, qq))
+    for grp, sc in ((G, 1.0), (H, 1.0), (AC, 9.8), (M, 40.0), (N0, 40.0), (BB, 0.05), (W0, 1.0)):
+        vec = rng.standard_normal(3) * sc
+        if grp is G and i % 7 == 3:
+            vec = np.zeros(3)                 # exact-zero gyroscope: the early-return path
+        if grp is M and i % 11 == 5:
+            vec = np.zeros(3)                 # both sensors null
+        if grp is BB and i % 5 == 0:
+            vec = rng.standard_normal(3) * 9.8  # BB doubles as acc[1] of fkf_m0
+        c.update(cm.d(grp, vec))
+    c['dt'] = [0.01, 0.005, 0.02, 0.1][i % 4]
+    return {k: c[k] for k in names}
+
+
+def correspondence(ctx):
+    I = _impl_table()
+    n = ctx.n(24, 240)
+    for t in targets():
+        name = t.name[len('C13_'):]
+        tt = ctx.targets.get(t.name)
+        if tt is None or tt.error:
+            ctx.say(f"[corr] {t.name}: not translated")
+            continue
+        cases = [_case(ctx.rng, tt.inputs, i) for i in range(n)]
+        heavy = name.startswith(('fkf_a0', 'fkf_m0', 'comp_'))
+        ctx.correspond(t.name, cases[: max(8, n // 3)] if heavy else cases, I[name], tol_ulp=512 if heavy else 64)
+    # twin targets: on every Val leaf of the regenerated tree the two halves are the SAME DAG nodes
+    # (updateMARG with a null magnetometer returns what updateIMU returns); structural, checked on every run
+    from pysym.sym import Leaf, Node
+    for nm, half, gyr_guard in (('mad_marg_m0', 4, True), ('aqua_marg_m0', 4, False)):   # Mahony's twin: numeric only (o_step)
+        tt = ctx.targets.get('C13_' + nm)
+        if tt is None or tt.error:
+            continue
+        bad, leaves = [], 0
+
+        def rec(t, gz):
+            nonlocal leaves
+            if isinstance(t, Node):
+                isg = gyr_guard and 'g0' in repr(t.cond) and 'a0' not in repr(t.cond) and t.cond.op == 'eq'
+                rec(t.t, gz or isg); rec(t.f, gz)
+                return
+            leaves += 1
+            if t.kind == 'raise':
+                if t.payload != 'ValueError':
+                    bad.append(('raise', t.payload))
+            elif not gz:
+                f = t.flat
+                if len(f) != 2 * half or any(f[i] is not f[i + half] for i in range(half)):
+                    bad.append(('halves differ', len(f)))
+        rec(tt.tree, False)
+        if bad:
+            ctx.disagree('twin_' + nm, {'target': nm}, 'MARG(mag=0) == IMU on every leaf', bad[:3],
+                         note='the magnetometer-dropout step is no longer the IMU step')
+        else:
+            ctx.agree('twin_' + nm, leaves)
+    ctx.say(f"[corr] twin targets: structural identity of the halves checked")
+
+
+# ------------------------------------------------------------------------------------------
+# search oracle: dropouts inside otherwise valid histories
+# ------------------------------------------------------------------------------------------
+def _history(seed, N, amp):
+    """a smooth rotation history with consistent gyr / acc / mag (NED, gravity +z as the filters expect for acc)"""
+    rng = np.random.default_rng(seed)
+    dt = 0.01
+    t = np.arange(N) * dt
+    ax = cm.unit(rng.standard_normal(3))
+    ang = amp * np.sin(2 * np.pi * 0.4 * t) + 0.3 * amp * np.sin(2 * np.pi * 1.1 * t + 1.0)      # rates up to ~5 rad/s at amp 1.5
+    q0 = cm.axang_q(rng.standard_normal(3), 0.4)
+    qs = np.array([cm.qmul(q0, cm.axang_q(ax, a)) for a in ang])
+    gref, mref = np.array([0.0, 0.0, 9.81]), np.array([22.0, 1.5, 41.0])
+    acc = np.array([cm.Rspec(q).T @ gref for q in qs])
+    mag = np.array([cm.Rspec(q).T @ mref for q in qs])
+    gyr = np.zeros((N, 3))
+    for i in range(1, N):
+        d = cm.qmul(cm.qconj(qs[i - 1]), qs[i])
+        gyr[i] = 2 * d[1:] / dt / max(d[0], 1e-9)
+    return gyr, acc, mag, qs
+
+
+FILTERS = {
+    # name: (constructor(gyr, acc, mag) -> Q array (N x 4), uses mag?, recovery samples, recovery tolerance [rad])
+    'Madgwick/IMU': (lambda g, a, m: _F().Madgwick(gyr=g, acc=a).Q, False, 100, 0.15),
+    'Madgwick/MARG': (lambda g, a, m: _F().Madgwick(gyr=g, acc=a, mag=m).Q, True, 100, 0.15),
+    'Mahony/IMU': (lambda g, a, m: _F().Mahony(gyr=g, acc=a).Q, False, 100, 0.15),
+    'Mahony/MARG': (lambda g, a, m: _F().Mahony(gyr=g, acc=a, mag=m).Q, True, 100, 0.15),
+    'AQUA/IMU': (lambda g, a, m: _F().AQUA(gyr=g, acc=a).Q, False, 100, 0.15),
+    'AQUA/MARG': (lambda g, a, m: _F().AQUA(gyr=g, acc=a, mag=m).Q, True, 100, 0.15),
+    'Fourati/MARG': (lambda g, a, m: _F().Fourati(gyr=g, acc=a, mag=m).Q, True, 100, 0.15),
+    # q0 given: ROLEQ's own initialisation (OLEQ.estimate) draws from the global RNG, so two runs would differ at row 0
+    'ROLEQ/MARG': (lambda g, a, m: _F().ROLEQ(gyr=g, acc=a, mag=m, magnetic_ref=np.array(MR), q0=_q0(a, m)).Q, True, 100, 0.15),
+    'EKF/IMU': (lambda g, a, m: _F().EKF(gyr=g, acc=a).Q, False, 100, 0.15),
+    'EKF/MARG': (lambda g, a, m: _F().EKF(gyr=g, acc=a, mag=m, magnetic_ref=np.array(MR)).Q, True, 100, 0.15),
+    'UKF/IMU': (lambda g, a, m: _F().UKF(gyr=g, acc=a).Q, False, 100, 0.15),
+    'FKF/MARG': (lambda g, a, m: _F().FKF(gyr=g, acc=a, mag=m).Q, True, 100, 0.15),
+    'Complementary/IMU': (lambda g, a, m: _F().Complementary(gyr=g, acc=a).Q, False, 100, 0.15),
+    'Complementary/MARG': (lambda g, a, m: _F().Complementary(gyr=g, acc=a, mag=m).Q, True, 100, 0.15),
+}
+
+
+def _q0(a, m):
+    from ahrs.common.orientation import ecompass
+    q = np.asarray(ecompass(np.asarray(a, float)[0], np.asarray(m, float)[0], frame='NED', representation='quaternion'), float)
+    return q / np.linalg.norm(q)
+
+
+def _qangle(p, q):
+    return 2 * math.acos(min(1.0, abs(float(np.dot(p, q)))))
+
+
+def _as(x, form):
+    """the same record handed over as float64 array, Python list, or float32 array"""
+    if form == 'list':
+        return x.tolist()
+    if form == 'f32':
+        return x.astype(np.float32)
+    return x.copy()
+
+
+def o_dropout(inp):
+    """one filter, one history, one dropout pattern: no NaN/inf, unit norm at and after the dropout, or ValueError;
+    after the dropout ends the estimates return to the no-dropout run"""
+    from vlib.core import call_outcome
+    name = inp['filter']
+    run, uses_mag, rec_n, rec_tol = FILTERS[name]
+    gyr, acc, mag, _ = _history(inp['seed'], inp['N'], inp['amp'])
+    form = inp.get('form', 'f64')
+    ref = call_outcome(run, _as(gyr, form), _as(acc, form), _as(mag, form))
+    if ref[0] == 'raise':
+        return {'tag': f'{name}/clean-history-raises-{ref[1]}', 'observed': list(ref[1:])}
+    Qref = np.asarray(ref[1], float)
+    g2, a2, m2 = gyr.copy(), acc.copy(), mag.copy()
+    last = 0
+    for sensor, start, length in inp['drops']:
+        {'acc': a2, 'mag': m2, 'gyr': g2}[sensor][start:start + length] = 0.0
+        last = max(last, start + length)
+    sensors = '+'.join(sorted({d[0] for d in inp['drops']}))
+    out = call_outcome(run, _as(g2, form), _as(a2, form), _as(m2, form))
+    if out[0] == 'raise':
+        if out[1] == 'ValueError':
+            return None                               # refusing the record is allowed by the property
+        if out[1] == 'LinAlgError':               # covariance lost positive definiteness: one tag per filter
+            return {'tag': f'{name}/raises-LinAlgError', 'observed': list(out[1:]), 'expected': 'unit quaternions or ValueError'}
+        return {'tag': f'{name}/{sensors}/raises-{out[1]}', 'observed': list(out[1:])}
+    Qd = np.asarray(out[1])
+    if Qd.shape != Qref.shape:
+        return {'tag': f'{name}/{sensors}/shape', 'observed': list(Qd.shape), 'expected': list(Qref.shape)}
+    if cm.bad(Qd):
+        bad_rows = np.where(~np.isfinite(np.asarray(Qd, float)).all(axis=1))[0]
+        return {'tag': f'{name}/{sensors}/non-finite', 'observed': f'{len(bad_rows)} NaN/inf rows, first at {int(bad_rows[0])}',
+                'expected': 'finite unit quaternions or ValueError'}
+    Qd = np.asarray(Qd, float)
+    nrm = np.linalg.norm(Qd, axis=1)
+    tol = 1e-9
+    if np.max(np.abs(nrm - 1)) > tol:
+        k = int(np.argmax(np.abs(nrm - 1)))
+        return {'tag': f'{name}/{sensors}/non-unit', 'observed': float(nrm[k]), 'expected': 1.0, 'note': f'row {k}'}
+    first = min(d[1] for d in inp['drops'])
+    if first > 0 and cm.maxabs(Qd[:first], Qref[:first]) > 1e-12:
+        return {'tag': f'{name}/{sensors}/changes-the-past', 'observed': 'rows before the dropout differ'}
+    # recovery: explored, with a generous envelope (0.15 rad: far below a lost attitude ~ 1 rad, far above the
+    # 0.05-0.07 rad residual the slow filters (FKF, UKF) still show 60 samples after a 10-sample dropout)
+    if last + rec_n < len(Qd) and 'gyr' not in sensors:
+        err = max(_qangle(Qd[i], Qref[i]) for i in range(last + rec_n, len(Qd)))
+        longest = max(d[2] for d in inp['drops'])
+        if longest > 10:     # long outage: the slow filters (UKF, FKF) need more than rec_n samples; demand clear recovery instead
+            rec_tol = max(rec_tol, 0.8 * _qangle(Qd[min(last, len(Qd) - 1)], Qref[min(last, len(Qd) - 1)]))
+        if err > rec_tol:
+            return {'tag': f'{name}/{sensors}/no-recovery', 'observed': err, 'expected': f'<= {rec_tol} rad {rec_n} samples after the dropout'}
+    return None
+
+
+def o_step(inp):
+    """one public per-sample update with an exact-zero sensor vector: ValueError, or finite unit quaternion and finite
+    carried state; equal to the IMU step when only the magnetometer is null"""
+    from vlib.core import call_outcome
+    I = _impl_table()
+    name = inp['target']
+    r = call_outcome(I[name], inp['case'])
+    if r[0] == 'raise':
+        return None if r[1] == 'ValueError' else {'tag': f'{name}/raises-{r[1]}', 'observed': list(r[1:])}
+    from vlib.core import flat_floats
+    v = np.array(flat_floats(r[1]))
+    if cm.bad(v):
+        return {'tag': f'{name}/non-finite', 'observed': v}
+    k = 3 if name.startswith('comp_') else 0
+    qn = float(np.linalg.norm(v[k:k + 4]))
+    unit_in = abs(np.linalg.norm([inp['case'].get(x, 0.5) for x in Q]) - 1) < 1e-12 if 'w' in inp['case'] else True
+    if unit_in and abs(qn - 1) > 1e-9:
+        return {'tag': f'{name}/non-unit', 'observed': qn, 'expected': 1.0}
+    if name.endswith('_marg_m0'):
+        h = len(v) // 2
+        if cm.maxabs(v[:h], v[h:]) > 1e-14:      # (a zero gyroscope returns q normalised once vs twice: 1 ulp)
+            return {'tag': f'{name}/not-the-IMU-step', 'observed': v[:h], 'expected': v[h:]}
+    return None
+
+
+ORACLES = {'dropout': o_dropout, 'step': o_step}
+
+
+def _call(f, inp, what):
+    from vlib.core import call_outcome
+    r = call_outcome(f, inp)
+    if r[0] == 'raise':
+        return {'tag': f"{what}/oracle-raises-{r[1]}", 'observed': list(r[1:])}
+    return r[1]
+
+
+def search(ctx, scale):
+    rng = ctx.rng
+    # (a) per-sample updates on exact zeros, incl. integer / list inputs through the implementation table
+    tnames = [t.name[len('C13_'):] for t in targets()]
+    for i in range(6 * scale):
+        for nm in tnames:
+            tt = ctx.targets.get('C13_' + nm)
+            names = tt.inputs if tt is not None else Q + G + AC + M + BB + DT + H + N0 + W0
+            inp = {'target': nm, 'case': _case(rng, names, i + 50)}
+            ctx.check('step', inp, _call(o_step, inp, nm), nontrivial_key=(nm, i))
+    # (b) histories
+    fnames = list(FILTERS)
+    pats = []
+    for N in (160, 240):
+        for start in (1, 2, N // 2, N - 2, N - 1):
+            pats.append((N, start, 1))
+        pats += [(N, N // 3, 5), (N, N // 4, 25), (N, 1, 10), (N, N - 6, 6)]
+    combos = [('acc',), ('mag',), ('acc', 'mag'), ('gyr',), ('acc', 'gyr'), ('acc', 'mag', 'gyr')]
+    k = 0
+    for fi, fn in enumerate(fnames):
+        uses_mag = FILTERS[fn][1]
+        for ci, combo in enumerate(combos):
+            if 'mag' in combo and not uses_mag:
+                continue
+            chosen = [pats[(fi * 7 + ci * 3 + j * 5) % len(pats)] for j in range(2 * scale if scale > 1 else 2)]
+            for (N, start, length) in chosen:
+                drops = [[s_, int(start), int(length)] for s_ in combo]
+                if k % 5 == 4:        # a second, overlapping / repeated dropout
+                    drops.append([combo[0], int(max(1, start - 3)), 2])
+                form = ('f64', 'f64', 'list')[k % 3]     # float32 records are rejected by the library's input validation (TypeError)
+                inp = {'filter': fn, 'seed': int(1 + (k % 3)), 'N': int(N), 'amp': [0.3, 0.8, 1.5][k % 3], 'drops': drops, 'form': form}
+                k += 1
+                ctx.check('dropout', inp, _call(o_dropout, inp, fn), nontrivial_key=(fn, combo, N, start, length, inp['seed']))
+    # short records (N in 2..7) with a dropout at the last / second row
+    for fn in fnames:
+        for N in (2, 3, 4, 5, 7):
+            sens = 'acc'
+            inp = {'filter': fn, 'seed': 2, 'N': N, 'amp': 0.5, 'drops': [[sens, N - 1, 1]], 'form': 'f64'}
+            ctx.check('dropout', inp, _call(o_dropout, inp, fn), nontrivial_key=(fn, 'short', N))
+    ctx.samples.append({'kind': 'search', 'oracle': 'dropout',
+                        'input': {'filter': 'Mahony/MARG', 'seed': 1, 'N': 160, 'amp': 0.3, 'drops': [['acc', 40, 5]], 'form': 'f64'}})
